@@ -361,3 +361,214 @@ Fixpoint t_runops (k : Z) (s : Z -> topk) (ops : list t_op) : list t_obs :=
 Definition ok_topk (c : Z * list t_op * list t_obs) : bool :=
   let '(k, ops, obs) := c in
   list_eqb t_obs_eqb (t_runops k (fun _ => topk_empty) ops) obs.
+
+(* ------------------------------------------------------------------ *)
+(** * Reservoir sampler (reservoir.py) *)
+
+(** The RNG is an oracle: a list of draws consumed in call order
+    ([randint] results; for [random()] the numerator of the float over 2^53).
+    A missing draw reads as 0. *)
+Record resv := { r_items : list Z; r_total : Z }.
+Definition resv_empty : resv := {| r_items := []; r_total := 0 |}.
+
+Definition draw (ds : list Z) : Z * list Z :=
+  match ds with [] => (0, []) | d :: r => (d, r) end.
+
+Fixpoint set_nth (n : nat) (x : Z) (l : list Z) : list Z :=
+  match l, n with
+  | [], _ => []
+  | _ :: r, O => x :: r
+  | a :: r, S n' => a :: set_nth n' x r
+  end.
+
+(** [_add_one] *)
+Definition r_add_one (k : Z) (st : resv * list Z) (x : Z) : resv * list Z :=
+  let '(s, ds) := st in
+  let tot := r_total s + 1 in
+  if Z.of_nat (length (r_items s)) <? k
+  then ({| r_items := r_items s ++ [x]; r_total := tot |}, ds)
+  else
+    let '(j, ds') := draw ds in          (* randint(0, total - 1) *)
+    ({| r_items := if j <? k then set_nth (Z.to_nat j) x (r_items s) else r_items s;
+        r_total := tot |}, ds').
+
+(** [add(item, count)]; boolean = raised ValueError *)
+Definition r_add (k : Z) (st : resv * list Z) (x c : Z) : resv * list Z * bool :=
+  if c <? 0 then (st, true)
+  else (fold_left (fun st _ => r_add_one k st x) (repeat tt (Z.to_nat c)) st, false).
+
+Definition two53 : Z := 9007199254740992.
+
+(** One iteration of the loop in [merge]: [random() < n1 / (n1 + n2)] decided
+    exactly on the float's numerator, then [randint(0, len - 1)]. *)
+Definition r_pick (a b : resv) (acc : list Z * list Z) : list Z * list Z :=
+  let '(new, ds) := acc in
+  let '(u, ds1) := draw ds in
+  if u * (r_total a + r_total b) <? r_total a * two53
+  then match r_items a with
+       | [] => (new, ds1)
+       | h :: _ => let '(i, ds2) := draw ds1 in (new ++ [nth (Z.to_nat i) (r_items a) h], ds2)
+       end
+  else match r_items b with
+       | [] => (new, ds1)
+       | h :: _ => let '(i, ds2) := draw ds1 in (new ++ [nth (Z.to_nat i) (r_items b) h], ds2)
+       end.
+
+Definition r_merge (k : Z) (a b : resv) (ds : list Z) : resv * list Z :=
+  let comb := r_total a + r_total b in
+  if comb =? 0 then (a, ds)
+  else
+    let '(new, ds') :=
+      fold_left (fun acc _ => r_pick a b acc) (repeat tt (Z.to_nat (Z.min k comb))) ([], ds) in
+    ({| r_items := firstn (Z.to_nat k) new; r_total := comb |}, ds').
+
+Definition r_stream (k : Z) (s : list (Z * Z)) (st : resv * list Z) : resv * list Z :=
+  fold_left (fun st xc => fst (r_add k st (fst xc) (snd xc))) s st.
+
+Inductive r_op :=
+| RAdd (slot x c : Z) (draws : list Z)     (* the draws the implementation made during this call *)
+| RMerge (dst src : Z) (draws : list Z).
+Definition r_obs := (list Z * Z * bool)%type.
+Definition r_obs_eqb (a b : r_obs) : bool :=
+  let '(a1, a2, a3) := a in let '(b1, b2, b3) := b in
+  list_eqb Z.eqb a1 b1 && (a2 =? b2) && Bool.eqb a3 b3.
+Definition r_step (k : Z) (s : Z -> resv) (o : r_op) : (Z -> resv) * r_obs :=
+  match o with
+  | RAdd sl x c ds =>
+      let '(st, rest, raised) := r_add k (s sl, ds) x c in
+      (* every recorded draw must have been consumed: [rest = []] is part of the comparison *)
+      (upd s sl st, (r_items st ++ rest, r_total st, raised))
+  | RMerge d sr ds =>
+      let '(st, rest) := r_merge k (s d) (s sr) ds in
+      (upd s d st, (r_items st ++ rest, r_total st, false))
+  end.
+Fixpoint r_runops (k : Z) (s : Z -> resv) (ops : list r_op) : list r_obs :=
+  match ops with
+  | [] => []
+  | o :: r => let '(s', ob) := r_step k s o in ob :: r_runops k s' r
+  end.
+Definition ok_reservoir (c : Z * list r_op * list r_obs) : bool :=
+  let '(k, ops, obs) := c in
+  list_eqb r_obs_eqb (r_runops k (fun _ => resv_empty) ops) obs.
+
+(* ------------------------------------------------------------------ *)
+(** * Merkle tree (merkle_tree.py) *)
+
+(** Keys are [Z] with the order of the Python string keys; values [Z].  Node
+    hashes and key ranges are recomputed from the tree (the implementation
+    stores them at construction; MerkleNode is frozen). *)
+Inductive mtree := MLeaf (k v : Z) | MNode (l r : mtree).
+
+Section MerkleModel.
+Context {H : Type}.
+Variable hl : Z -> Z -> H.           (* _hash_leaf(key, value) *)
+Variable hc : H -> H -> H.           (* _hash_children(left, right) *)
+Variable heq : H -> H -> bool.       (* == on hex digests *)
+
+Fixpoint m_hash (t : mtree) : H :=
+  match t with MLeaf k v => hl k v | MNode l r => hc (m_hash l) (m_hash r) end.
+Fixpoint m_start (t : mtree) : Z := match t with MLeaf k _ => k | MNode l _ => m_start l end.
+Fixpoint m_end (t : mtree) : Z := match t with MLeaf k _ => k | MNode _ r => m_end r end.
+
+(** [_diff_nodes] *)
+Fixpoint m_diff (a b : mtree) {struct a} : list (Z * Z) :=
+  if heq (m_hash a) (m_hash b) then []
+  else
+    match a, b with
+    | MNode al ar, MNode bl br => m_diff al bl ++ m_diff ar br
+    | _, _ => [(Z.min (m_start a) (m_start b), Z.max (m_end a) (m_end b))]
+    end.
+
+(** [MerkleTree.diff] (roots may be None = empty tree) *)
+Definition mt_diff (a b : option mtree) : list (Z * Z) :=
+  match a, b with
+  | None, None => []
+  | None, Some tb => [(m_start tb, m_end tb)]
+  | Some ta, None => [(m_start ta, m_end ta)]
+  | Some ta, Some tb => if heq (m_hash ta) (m_hash tb) then [] else m_diff ta tb
+  end.
+End MerkleModel.
+
+(** [_build_tree(sorted_items)]: halving; [fuel] bounds the recursion depth. *)
+Fixpoint m_build (fuel : nat) (items : list (Z * Z)) : option mtree :=
+  match fuel with
+  | O => None
+  | S f =>
+      match items with
+      | [] => None
+      | [(k, v)] => Some (MLeaf k v)
+      | _ =>
+          let mid := Nat.div (length items) 2 in
+          match m_build f (firstn mid items), m_build f (skipn mid items) with
+          | Some l, Some r => Some (MNode l r)
+          | _, _ => None
+          end
+      end
+  end.
+Definition m_of (items : list (Z * Z)) : option mtree := m_build (length items) items.
+
+(** dict operations + sorted(items) *)
+Fixpoint d_set (k v : Z) (d : list (Z * Z)) : list (Z * Z) :=
+  match d with
+  | [] => [(k, v)]
+  | (k', v') :: r => if k' =? k then (k, v) :: r else (k', v') :: d_set k v r
+  end.
+Fixpoint d_del (k : Z) (d : list (Z * Z)) : list (Z * Z) :=
+  match d with
+  | [] => []
+  | (k', v') :: r => if k' =? k then r else (k', v') :: d_del k r
+  end.
+Fixpoint d_get (k : Z) (d : list (Z * Z)) : option Z :=
+  match d with
+  | [] => None
+  | (k', v') :: r => if k' =? k then Some v' else d_get k r
+  end.
+Fixpoint m_insert (e : Z * Z) (l : list (Z * Z)) : list (Z * Z) :=
+  match l with
+  | [] => [e]
+  | a :: r => if fst e <? fst a then e :: l else a :: m_insert e r
+  end.
+Definition m_sort (d : list (Z * Z)) : list (Z * Z) := fold_right m_insert [] d.
+Definition m_tree (d : list (Z * Z)) : option mtree := m_of (m_sort d).
+
+(** Ideal (collision-free) hash for running the model: the subtree itself. *)
+Fixpoint mtree_eqb (a b : mtree) : bool :=
+  match a, b with
+  | MLeaf k v, MLeaf k' v' => (k =? k') && (v =? v')
+  | MNode l r, MNode l' r' => mtree_eqb l l' && mtree_eqb r r'
+  | _, _ => false
+  end.
+Definition mi_diff := mt_diff MLeaf MNode mtree_eqb.
+
+Inductive m_op :=
+| MBuild (t : Z) (d : list (Z * Z))
+| MUpdate (t k v : Z)
+| MRemove (t k : Z)
+| MDiff (a b : Z).
+(** observation: sorted items of the touched tree, diff ranges, root hashes equal *)
+Definition m_obs := (list (Z * Z) * list (Z * Z) * bool)%type.
+Definition pairs_eqb := list_eqb (fun a b : Z * Z => (fst a =? fst b) && (snd a =? snd b)).
+Definition m_obs_eqb (a b : m_obs) : bool :=
+  let '(a1, a2, a3) := a in let '(b1, b2, b3) := b in
+  pairs_eqb a1 b1 && pairs_eqb a2 b2 && Bool.eqb a3 b3.
+Definition root_eqb (a b : option mtree) : bool :=
+  match a, b with
+  | None, None => true
+  | Some x, Some y => mtree_eqb x y
+  | _, _ => false
+  end.
+Definition m_step (s : Z -> list (Z * Z)) (o : m_op) : (Z -> list (Z * Z)) * m_obs :=
+  match o with
+  | MBuild t d => (upd s t d, (m_sort d, [], false))
+  | MUpdate t k v => let d := d_set k v (s t) in (upd s t d, (m_sort d, [], false))
+  | MRemove t k => let d := d_del k (s t) in (upd s t d, (m_sort d, [], false))
+  | MDiff a b =>
+      (s, (m_sort (s a), mi_diff (m_tree (s a)) (m_tree (s b)), root_eqb (m_tree (s a)) (m_tree (s b))))
+  end.
+Fixpoint m_runops (s : Z -> list (Z * Z)) (ops : list m_op) : list m_obs :=
+  match ops with
+  | [] => []
+  | o :: r => let '(s', ob) := m_step s o in ob :: m_runops s' r
+  end.
+Definition ok_merkle (c : list m_op * list m_obs) : bool :=
+  let '(ops, obs) := c in list_eqb m_obs_eqb (m_runops (fun _ => []) ops) obs.
